@@ -30,21 +30,23 @@ MANIFEST = {
     "design_ref": "DESIGN.md 4.9",
     "technique": "Coq proof by induction over layers / sizes about an executable Gallina model generic in the numeric carrier "
                  "(Model/Masks.v) + exact correspondence of the extracted model with the real masks, Jacobian sparsity and values",
-    "text": "Theorems (all closed under the global context) about an executable model of rank_based_mask / block_diag_mask / "
-            "block_tril_mask, the rank formulas of MaskedAutoregressive, the masked MLP, Coupling.transform and the block "
-            "autoregressive network, over an ARBITRARY carrier with the single algebraic hypothesis 0*a = 0 and an arbitrary "
-            "activation: for all weights, biases, dims, cond dims, widths, depths (0 included) and parameter counts the "
-            "transformer parameters of coordinate i depend only on x_<i (and on the condition), y_i only on x_<=i; for "
-            "width >= dim-1 (unconditional) / >= dim (conditional) every permitted dependency has an all-true mask path; "
-            "coupling returns its first block unchanged and coordinate i >= d depends on itself, the first block and the "
-            "condition for an arbitrary conditioner; the BNAF output i does not depend on x_j, j > i, and is strictly "
-            "increasing in x_i (ordered carrier, positive diagonal blocks, strictly increasing activation); the mask helpers "
-            "equal their closed forms for every size. The masks are applied inside the model at evaluation, so the theorems "
-            "quantify over the raw weights. Partial: positivity of the Jacobian diagonal is proved as strict monotonicity, "
-            "not as a derivative; the softplus/weight-norm wrappers enter the theorems as 'diagonal blocks positive, zero off "
-            "the mask' (tied numerically to the real unwrapped weights). The model is tied to /repo on every run: masks "
-            "exactly, dependence through jax.jacobian sparsity after replacing every raw weight leaf (training cannot "
-            "un-mask), values bit for bit on integer-valued cases.",
+    "text": "19 theorems (all closed under the global context) about an executable model of rank_based_mask / block_diag_mask / "
+            "block_tril_mask, the rank formulas of MaskedAutoregressive (incl. the % 0 = 0 case of dim 1 and the -1 ranks of the "
+            "condition), the masked MLP, Coupling.transform and the block autoregressive network, over an ARBITRARY numeric carrier "
+            "with the single algebraic hypothesis 0*a = 0 and an arbitrary activation. For ALL raw weights, biases, dims, cond dims, "
+            "widths, depths (0 included) and parameter counts: the transformer parameters of coordinate i depend only on x_<i (and on "
+            "the condition), y_i only on x_<=i; for width >= dim-1 (unconditional) / >= dim (conditional) every permitted dependency "
+            "has an all-true mask path, and every condition entry reaches every parameter; the model's reachability matrix is true "
+            "exactly on such paths and 'false' implies independence for all weights; Coupling returns its first block unchanged and "
+            "coordinate i >= d depends on itself, the first block and the condition for an arbitrary conditioner; BNAF output i does "
+            "not depend on x_j, j > i; the mask helpers equal their closed forms for every size and offset; the Where mask is applied "
+            "at evaluation (training cannot un-mask). PARTIAL: 'strictly positive Jacobian diagonal' of BNAF is proved as strict "
+            "monotonicity of y_i in x_i over any ordered carrier (C09_bnaf_monotone_partial), not in derivative form, and takes "
+            "'diagonal-block weights positive' as a hypothesis (what softplus + weight normalisation deliver; checked numerically on "
+            "the real unwrapped weights). The model is tied to /repo on every run: masks exactly (helpers on a size grid, masks inside "
+            "real MaskedAutoregressive / BlockAutoregressiveNetwork objects after unwrap), dependence through jax.jacobian sparsity "
+            "after replacing every raw weight leaf (random large, all-positive, after a gradient step) against the model's "
+            "reachability matrices, values bit for bit on integer-valued networks.",
     "note": "Trusted: Coq kernel; extraction (ExtrOcamlBasic); OCaml driver; harness. 0*a = 0 fails for non-finite IEEE values "
             "(0*inf = NaN): 'arbitrary inputs/weights' means finite ones. A zero Jacobian entry is local evidence of "
             "independence only; it is complemented by bitwise value-invariance under large input changes. The model is hand "
@@ -319,7 +321,7 @@ def maf_fn(cfg):
     def fn(m, z):
         xx, cc = z[:dim], (None if cd is None else z[dim:])
         nn_in = xx if cc is None else jnp.hstack((xx, cc))
-        return jnp.concatenate([unwrap(m).masked_autoregressive_mlp(nn_in), m.transform(xx, cc)])
+        return jnp.concatenate([unwrap(m).masked_autoregressive_mlp(nn_in), m.transform(xx, cc), m.transform_and_log_det(xx, cc)[0]])
 
     return fn
 
@@ -334,11 +336,13 @@ def maf_jacobians(m, cfg, x, c):
     F = lambda zz: Fj(params, zz)
     z = jnp.asarray(np.concatenate([x, c]) if cd is not None else x)
     J = np.asarray(Jj(params, z))
-    npar = (J.shape[0] - dim) // dim
+    npar = (J.shape[0] - 2 * dim) // dim
     Jp = J[: dim * npar].reshape(dim, npar, -1)
     if not np.isfinite(J).all():
         raise FloatingPointError("non-finite Jacobian")   # outside the premise (finite values); callers skip the case
-    return (np.abs(Jp) > 0).any(axis=1), np.abs(J[dim * npar:]) > 0, F, z, npar
+    # outputs of transform and of transform_and_log_det (two code paths): a dependence through either counts
+    dep_y = (np.abs(J[dim * npar: dim * npar + dim]) > 0) | (np.abs(J[dim * npar + dim:]) > 0)
+    return (np.abs(Jp) > 0).any(axis=1), dep_y, F, z, npar
 
 
 def maf_oracle(dep_p, dep_y, dim):
@@ -367,7 +371,8 @@ def maf_perturb_oracle(F, z, dim, npar, r):
     if not np.array_equal(a[: (t + 1) * npar], b[: (t + 1) * npar]):
         i = int(np.argmax(a[: (t + 1) * npar] != b[: (t + 1) * npar])) // npar
         errs.append(f"forbidden-parameter-dependence|the transformer parameters of coordinate {i} change when only x_{t}.. change")
-    if not np.array_equal(a[dim * npar: dim * npar + t], b[dim * npar: dim * npar + t]):
+    o1, o2 = dim * npar, dim * npar + dim
+    if not (np.array_equal(a[o1: o1 + t], b[o1: o1 + t]) and np.array_equal(a[o2: o2 + t], b[o2: o2 + t])):
         errs.append(f"forbidden-output-dependence|an output before {t} changes when only x_{t}.. change")
     return errs, t, z2.tolist()
 
@@ -530,18 +535,17 @@ NPARS = {"affine": 2, "rqs": 8, "loc": 1, "lin2": 2}
 
 def maf_shapes(ctx):
     """Base shapes (dim, cond, width, depth) shared by the three MAF units (JAX compiles once per shape, so the units draw
-    their cases from one list).  thorough: the whole grid dim 1..5 x cond None,1,2,3 x width 1..7 x depth 0..3 plus cond_dim=0."""
+    their cases from one list).  Grid: dim 1..5 x cond None,1,2,3 x width 1..7 x depth 0..3, plus cond_dim=0 shapes."""
     r = ctx.rng
     grid = [(d, c, w, dp) for d, c, w, dp in itertools.product(range(1, 6), [None, 1, 2, 3], range(1, 8), range(0, 4))]
     extra = [(d, 0, w, dp) for d, w, dp in itertools.product([1, 2, 3], [1, 2, 4], [0, 1, 2])]
-    if not ctx.quick:
-        return grid + extra
     # boundary-directed: dim = 1 (the % 0 case) both ways, width below / at / above the completeness threshold, depth 0
     must = [(1, None, 3, 1), (1, 2, 2, 2), (1, None, 1, 0), (2, None, 1, 1), (3, None, 1, 2), (3, None, 2, 1), (3, 1, 2, 1), (3, 1, 3, 1),
             (4, None, 3, 3), (4, 2, 3, 1), (4, 2, 4, 2), (5, None, 4, 1), (5, 3, 5, 2), (5, None, 7, 0), (2, 3, 1, 0), (2, 0, 2, 1), (3, 0, 4, 2),
             (2, None, 4, 1), (3, None, 3, 1), (3, None, 6, 2), (4, None, 7, 1)]
-    rest = [g for g in grid if g not in must]
-    return must + [rest[i] for i in r.choice(len(rest), size=22, replace=False)]
+    rest = [g for g in grid + extra if g not in must]
+    # thorough: 300 of the remaining shapes (one XLA compilation per shape and transformer kind bounds the volume)
+    return must + [rest[i] for i in r.choice(len(rest), size=(22 if ctx.quick else 300), replace=False)]
 
 
 def run_maf(ctx):
@@ -648,34 +652,42 @@ def coupling_check(ctx, u, cfg, weights, sub, mdep, mval):
     else:
         x, c = r.normal(0, 2.0, size=dim), r.normal(0, 2.0, size=cd or 0)
 
-    Fj, Jj = jitted("coupling", cfg, coupling_build, lambda mod, zz: mod.transform(zz[:dim], None if cd is None else zz[dim:]))
+    Fj, Jj = jitted("coupling", cfg, coupling_build,
+                    lambda mod, zz: jnp.concatenate([mod.transform(zz[:dim], None if cd is None else zz[dim:]),
+                                                     mod.transform_and_log_det(zz[:dim], None if cd is None else zz[dim:])[0]]))
     cparams = leaves_of(cp)
     F = lambda zz: Fj(cparams, zz)
     z = jnp.asarray(np.concatenate([x, c]) if cd is not None else x)
-    y = np.asarray(F(z))
-    J = np.asarray(Jj(cparams, z))
-    dep = np.abs(J) > 0
+    y_all = np.asarray(F(z))
+    J_all = np.asarray(Jj(cparams, z))
     errs = []
-    if not np.array_equal(y[:d], x[:d]):
-        errs.append(f"first-block-changed|the first block is not returned unchanged: y[:{d}]={y[:d].tolist()} x[:{d}]={x[:d].tolist()}")
-    eye = np.zeros_like(J[:d])
-    eye[:, :d] = np.eye(d)
-    if not np.array_equal(J[:d], eye):
-        errs.append("first-block-jacobian|the Jacobian rows of the first block are not the identity")
-    for i in range(d, dim):
-        for j in range(d, dim):
-            if j != i and dep[i, j]:
-                errs.append(f"cross-dependence|output {i} depends on x_{j} (another transformed coordinate)")
-    # bitwise invariance: change every transformed coordinate but i
-    if dim - d >= 2:
-        i = int(r.integers(d, dim))
+    z2, i_inv = None, None
+    if dim - d >= 2:   # bitwise invariance: change every transformed coordinate but i_inv
+        i_inv = int(r.integers(d, dim))
         z2 = np.array(z)
         for j in range(d, dim):
-            if j != i:
+            if j != i_inv:
                 z2[j] = r.normal(0, 30.0)
-        yi2 = np.asarray(F(jnp.asarray(z2)))[i]
-        if np.isfinite(yi2) and np.isfinite(y[i]) and yi2 != y[i]:
-            errs.append(f"cross-dependence|output {i} changes when only the other transformed coordinates change")
+        y2_all = np.asarray(F(jnp.asarray(z2)))
+    for blk, name in ((0, "transform"), (1, "transform_and_log_det")):   # the two code paths
+        y, J = y_all[blk * dim:(blk + 1) * dim], J_all[blk * dim:(blk + 1) * dim]
+        depb = np.abs(J) > 0
+        if not np.array_equal(y[:d], x[:d]):
+            errs.append(f"first-block-changed|{name}: the first block is not returned unchanged: y[:{d}]={y[:d].tolist()} x[:{d}]={x[:d].tolist()}")
+        eye = np.zeros_like(J[:d])
+        eye[:, :d] = np.eye(d)
+        if not np.array_equal(J[:d], eye):
+            errs.append(f"first-block-jacobian|{name}: the Jacobian rows of the first block are not the identity")
+        for i in range(d, dim):
+            for j in range(d, dim):
+                if j != i and depb[i, j]:
+                    errs.append(f"cross-dependence|{name}: output {i} depends on x_{j} (another transformed coordinate)")
+        if i_inv is not None:
+            yi2 = y2_all[blk * dim + i_inv]
+            if np.isfinite(yi2) and np.isfinite(y[i_inv]) and yi2 != y[i_inv]:
+                errs.append(f"cross-dependence|{name}: output {i_inv} changes when only the other transformed coordinates change")
+    y = y_all[:dim]
+    dep = (np.abs(J_all[:dim]) > 0) | (np.abs(J_all[dim:]) > 0)
     mat, _ = parse_bmats(mdep.split())
     md = mat()
     ok = bool((dep <= md).all()) and (weights != "positive" or cfg["tr"] != "affine" or bool((dep == md).all()))
@@ -722,7 +734,7 @@ def run_coupling(ctx):
                              "0..2; non-trivial = some transformed coordinate depends on the first block")
     grid = [dict(dim=dim, d=d, cond=c, width=w, depth=dp) for dim in range(2, 6) for d in range(0, dim) for c in (None, 1, 2)
             for w in (1, 3) for dp in (0, 1, 2) if not (d == 0 and c is None)]
-    n = 34 if ctx.quick else 600
+    n = 34 if ctx.quick else 300
     idx = r.choice(len(grid), size=min(n, len(grid)), replace=False)
     cases = []
     for i in idx:
@@ -796,10 +808,16 @@ def bnaf_check(ctx, u, cfg, sub, mout_masks):
                 errs.append(f"diagonal-weight-not-positive|layer {k}: a diagonal-block weight is not strictly positive")
     x = r.normal(0, 2.0, size=dim)
     c = r.normal(0, 2.0, size=cd or 0)
-    Fj, Jj = jitted("bnaf", cfg, bnaf_build, lambda mod, zz: mod.transform(zz[:dim], None if cd is None else zz[dim:]))
+    Fj, Jj = jitted("bnaf", cfg, bnaf_build,
+                    lambda mod, zz: jnp.concatenate([mod.transform(zz[:dim], None if cd is None else zz[dim:]),
+                                                     mod.transform_and_log_det(zz[:dim], None if cd is None else zz[dim:])[0]]))
     bparams = leaves_of(b)
-    F = lambda xx: Fj(bparams, jnp.concatenate([xx, jnp.asarray(c)]) if cd is not None else xx)
-    J = np.asarray(Jj(bparams, jnp.asarray(np.concatenate([x, c]) if cd is not None else x)))[:, :dim]
+    F2 = lambda xx: Fj(bparams, jnp.concatenate([xx, jnp.asarray(c)]) if cd is not None else xx)
+    F = lambda xx: F2(xx)[:dim]
+    J2 = np.asarray(Jj(bparams, jnp.asarray(np.concatenate([x, c]) if cd is not None else x)))[:, :dim]
+    J = J2[:dim]
+    if np.any(np.triu(J2[dim:], 1) != 0) or (cfg.get("act") != "tanh" and not bool((np.diag(J2[dim:]) > 0).all())):
+        errs.append("not-lower-triangular|the output of transform_and_log_det has a Jacobian that is not lower triangular with positive diagonal")
     if np.any(np.triu(J, 1) != 0):
         i, j = map(int, np.argwhere(np.triu(J, 1) != 0)[0])
         errs.append(f"not-lower-triangular|output {i} depends on x_{j} (Jacobian not lower triangular)")
